@@ -49,7 +49,7 @@ BLOCK = 32768
 BIN = "replay_process"
 BIN_PIDFD = "replay_process_pidfd"
 CHILD = "c20_child"
-SHARDS = {"quick": 4, "thorough": 6}
+SHARDS = {"quick": 4, "thorough": 8}
 # actions of the code before the repair (BlockingChildPipes = TRUE): fire only in the control config
 OLD_BEHAVIOUR = ("PollWriteBlocksThread", "BlockedWriteProgress")
 MODEL_KEYS = ("kind", "nin", "nout", "nerr", "wchunk", "rchunk", "mode", "hold", "gate", "pipein", "take", "status",
@@ -410,7 +410,7 @@ def run(run, tier, replay):
         extra = pipeline_cases(tier, len(cases))
         run.note("pipeline_programs", len(extra))
         if tier != "quick":
-            extra += random_cases(600, vlib.seed(), len(cases) + len(extra))
+            extra += random_cases(400, vlib.seed(), len(cases) + len(extra))
         allcases = cases + extra
         run.note("programs_from_model", len(cases))
         run.note("random_byte_programs", sum(1 for c in extra if "bytes" in c))
